@@ -240,12 +240,11 @@ func (eval Evaluator) PartialTracesSum(ctIn *Ciphertext, offset, n int, opOut *C
 			if j&1 == 1 {
 
 				k := n - (n & ((2 << i) - 1))
-				k *= offset
 
-				// If the rotation is not zero
+				// If the scanned bit is not the most significant one
 				if k != 0 {
 
-					rot := params.GaloisElement(k)
+					rot := params.GaloisElement(k * offset)
 
 					// opOutQP = opOutQP + Rotate(ctInNTT, k)
 					if copy {
